@@ -45,6 +45,10 @@ CLAIMS = {
                   'lexer line/column accounting over all UTF-8 texts up to N bytes. Replayed through the LSP binary.',
              tech='SMT-guided bounded symbolic execution of rustc MIR (z3)', sect='§4 C15',
              note='Kernels K1, K2, K4, K5. Outside: token length in UTF-16 units, multi-line tokens (K3), edit histories (C11).'),
+ 'C10': dict(text='Symbolic round trip of leaf literals: the literal node of a parsed template is made symbolic, the real renderer is executed symbolically (format!/to_string by contract), the rendered text is lexed by the lexer lifted on that text, '
+                  'parsed by the real peg parser and compared with the derived PartialEq of Library; the solver decides value preservation and re-parsability for all values in the bound. write_ws lexeme separation as an inductive step. Replayed through write_to_string/parse_program.',
+             tech='SMT-guided bounded symbolic execution of rustc MIR (z3): renderer -> lifted lexer -> generated parser', sect='§4 C10',
+             note='Kernels K1 (duration, integer, date, time of day), K2. Outside: structural round trip of declarations/statements/configurations/SFC; reals and anything rendered through floating point (not encoded).'),
  'C04': dict(text='Kani/CBMC proof harnesses over the compiled ironplc-dsl numeric constructors (all FixedPoint values, real time crate) decide panic freedom; '
                   'failing checks come with concrete playback values that are replayed through the public API and through `check` of a program containing the literal.',
              tech='bounded model checking with Kani/CBMC (bit-precise, compiled code)', sect='§4 C04', kani=True,
